@@ -1010,7 +1010,30 @@ func genBatch(prop string, g *Gen, m *Model, rng *SplitMix) []Cmd {
 			cmds = append(cmds, mutation())
 		}
 	default: // C02
-		switch rng.Intn(8) {
+		switch rng.Intn(9) {
+		case 8:
+			// prune against a writer that makes one of its targets ineligible
+			// (a child for a childless epic, a reopened task)
+			cmds = []Cmd{{Op: "prune", Yes: true}}
+			if e, ok := g.liveOf(m, func(it *MItem) bool {
+				if !it.IsEpic {
+					return false
+				}
+				for _, t := range m.Tasks() {
+					if t.Epic == it.ID && !finished(t.State) {
+						return false
+					}
+				}
+				return true
+			}); ok {
+				cmds = append(cmds, Cmd{Op: "new_task", Title: sp(g.text("title")), Epic: &e})
+			}
+			if t, ok := g.liveOf(m, func(it *MItem) bool { return !it.IsEpic && finished(it.State) }); ok {
+				cmds = append(cmds, Cmd{Op: "set", ID: t, State: sp("todo")})
+			}
+			for len(cmds) < 3 {
+				cmds = append(cmds, mutation())
+			}
 		case 0:
 			cmds = []Cmd{{Op: "compact"}, mutation(), mutation()}
 		case 1:
